@@ -156,7 +156,7 @@ func fmtFeature(p0, p2, text string) string {
 // ---- value profile: strings with awkward characters ----------------------------------------
 
 // c12Chars: the characters string values are built from (as values, not source text).
-var c12Chars = []string{"a", " ", `"`, `\`, "\n", "\r", "\t", "\u0001", "\u007f", "é", "\u00a0", "😀", `"""`, "\u0000", "\u2028", "\ufeff", "/", "\b", "\f", "\U000e0001", "\ufffd", "x\ufffdy"}
+var c12Chars = []string{"a", " ", `"`, `\`, "\n", "\r", "\t", "\u0001", "\u007f", "é", "\u00a0", "😀", `"""`, "\u0000", "\u2028", "\ufeff", "/", "\b", "\f", "\U000e0001", "\ufffd", "x\ufffdy", ",", ":", "{", "#"}
 
 // gqlQuote writes a string value as a GraphQL quoted string that the October-2021 lexer
 // accepts: escapes for quote, backslash and everything outside printable ASCII up to
